@@ -35,6 +35,7 @@ def run_C20(ctx, rep):
 
 
 def run_C10(ctx, rep):
+    lib_rules.check_L13(ctx, rep)       # is_empty of every read view is exact (a rule is skipped when a body relation reports empty)
     byods_rules.check_L5(ctx, rep, 'eqrel_ternary')
     byods_rules.check_L15(ctx, rep)
     byods_rules.check_L16(ctx, rep, ['union_find'])
@@ -59,6 +60,7 @@ def run_C10(ctx, rep):
 
 
 def run_C11(ctx, rep):
+    lib_rules.check_L13(ctx, rep)       # is_empty of every read view is exact (a rule is skipped when a body relation reports empty)
     byods_rules.check_L5(ctx, rep, 'trrel_ternary_ind')
     byods_rules.check_L12(ctx, rep)
     byods_rules.check_L14(ctx, rep, 'trrel_binary_ind')
@@ -84,6 +86,7 @@ def run_C11(ctx, rep):
 
 
 def run_C12(ctx, rep):
+    lib_rules.check_L13(ctx, rep)       # is_empty of every read view is exact (a rule is skipped when a body relation reports empty)
     byods_rules.check_L5(ctx, rep, 'adaptor::bin_rel_to_ternary')
     byods_rules.check_L14(ctx, rep, 'trrel_union_find_binary_ind')
     byods_rules.check_L21(ctx, rep, 'trrel_union_find_binary_ind')
@@ -93,6 +96,7 @@ def run_C12(ctx, rep):
     byods_rules2.check_L22(ctx, rep, 'adaptor::bin_rel_to_ternary')
     byods_rules2.check_L29(ctx, rep, 'trrel_union_find_binary_ind')
     byods_rules2.check_L30(ctx, rep)
+    byods_rules2.check_L32(ctx, rep)
     byods_rules2.check_L28(ctx, rep, ['trrel_union_find_binary_ind', 'trrel_union_find'])
     rep.floor('L29', 3)
     for sc in ('adaptor::bin_rel_to_ternary', 'adaptor::bin_rel::'):
@@ -197,7 +201,7 @@ def run_C07(ctx, rep):
 
 
 def run_C08(ctx, rep):
-    gen_driver.run_twins(ctx, rep, lambda n, k: n.replace('_par', '') in ('t_mac_sugar', 't_macn_sugar', 't_mach_sugar', 't_macd_sugar', 't_maca_sugar', 't_macx_sugar', 't_macs_sugar', 't_macf_sugar', 't_macb_sugar', 't_macg_sugar'), floors={'T.L': 20})
+    gen_driver.run_twins(ctx, rep, lambda n, k: n.replace('_par', '') in ('t_mac_sugar', 't_macn_sugar', 't_mach_sugar', 't_macd_sugar', 't_maca_sugar', 't_macx_sugar', 't_macs_sugar', 't_macf_sugar', 't_macb_sugar', 't_macg_sugar', 't_mace_sugar'), floors={'T.L': 22})
     gen_driver.run_tv(ctx, rep, only_tags=['twin'], floors={'R1': 40})
     witness_rules.run_witnesses(ctx, rep, ctx.tier, kinds=('macro_self_rec', 'macro_mutual_rec', 'macro_head_rec', 'macro_rec3', 'macro_rec_in_disj', 'macro_double_rec_head', 'macro_double_rec_disj', 'macro_double_rec_body'))
     macro_rules.check_M2(ctx, rep)
